@@ -94,6 +94,26 @@ def random_script(sid, rnd, inorder=False):
     return sc
 
 
+def recovery_stories(inorder=False):
+    """the stop request lands while a new session is still re-sending the leftovers of a broken one (writes that return late): at the
+    top of the re-send loop both the stop and the next leftover are ready, and whichever the client takes, every leftover
+    must be resolved"""
+    out = []
+    for n in (2, 3, 5):
+        for how in ("ackerr", "senderr"):
+            sc = {"id": "stop-in-recovery-%d-%s" % (n, how), "seed": 7, "jitter": False, "inorder": inorder, "maxDurMs": 0,
+                  "dial": ["ok"] * 6, "ping": [], "env": [{"at": 0, "do": "feed"} for _ in range(n)]}
+            if how == "ackerr":
+                sc["send"] = ["ok"] * n + ["slowret"] * (2 * n)
+                sc["ack"] = ["err"]
+            else:
+                sc["send"] = ["ok"] * (n - 1) + ["err"] + ["slowret"] * (2 * n)
+                sc["ack"] = ["block"] * n
+            sc["env"].append({"at": 0, "do": "stop", "after": "SessionStart", "nth": 2})
+            out.append(sc)
+    return out
+
+
 EVENT_KINDS = [("Dial", "out", ["ok", "fail"]), ("SendEnd", "out", ["ok", "err"]), ("PingEnd", "out", ["ok", "err"]),
                ("AckReadEnd", "out", ["ack", "garbage", "err", "inorder"]), ("Resend", "branch", ["stop", "pop", "empty"]),
                ("Normal", "branch", ["pop", "closed", "soft"]), ("Enq", "branch", ["ok", "stop", "ackerEnded"]),
